@@ -42,7 +42,7 @@ type c04Res struct {
 type c04Case struct {
 	ks    int    // base proof keyset index (0 inactive, 1 active)
 	denom uint64 // base proof amount
-	via   string // swap | melt
+	via   string // swap | melt | swap-second (the mutated proof is the SECOND input, after a genuine proof of the same keyset and denomination)
 	mut   string // mutation name
 }
 
@@ -72,12 +72,20 @@ func c04Cases(quick bool) []c04Case {
 	muts = append(muts, "secret+1", "secret-1", "secret-case")
 	for _, ks := range []int{0, 1} {
 		for _, d := range denoms {
-			for _, via := range []string{"swap", "melt"} {
+			for _, via := range []string{"swap", "melt", "swap-second"} {
 				for _, m := range muts {
 					if m == fmt.Sprintf("amount=2^%d", log2(d)) {
 						continue
 					}
+					if via == "swap-second" && strings.HasPrefix(m, "C=flip") && m != "C=flip0" && m != "C=flip7" && m != "C=flip8" && m != "C=flip263" {
+						continue // position does not multiply the bit-flip family; amount / id / encoding / secret mutations all run in second position
+					}
 					cs = append(cs, c04Case{ks, d, via, m})
+				}
+				if via == "swap-second" {
+					for _, a := range []string{"amount=1000000", "amount=5", "amount=2^59+1"} {
+						cs = append(cs, c04Case{ks, d, via, a})
+					}
 				}
 			}
 		}
@@ -235,12 +243,12 @@ func c04Worker(job json.RawMessage) (any, error) {
 	need := map[uint64]int{}
 	for i, c := range cases {
 		if i%j.N == j.Shard && c.ks == 0 {
-			need[c.denom] += 2 // base proof may be consumed by an accept; spare for "other proof"
+			need[c.denom] += 3 // base proof may be consumed by an accept; spare for "other proof" and the genuine first input
 		}
 	}
 	for d, n := range need {
-		if n > 6 {
-			n = 6
+		if n > 9 {
+			n = 9
 		}
 		for k := 0; k < n+2; k++ {
 			p, err := w.mintOne(d, "")
@@ -269,7 +277,7 @@ func c04Worker(job json.RawMessage) (any, error) {
 		if b := base[k]; b != nil {
 			return b, nil
 		}
-		p, err := w.fresh(ks, d)
+		p, err := w.fresh(ks%10, d)
 		if err != nil {
 			return nil, err
 		}
@@ -287,7 +295,7 @@ func c04Worker(job json.RawMessage) (any, error) {
 		p := b.p
 		switch {
 		case c.mut == "unchanged" || c.mut == "unchanged-all":
-		case strings.HasPrefix(c.mut, "amount=2^") && c.mut != "amount=2^60" && c.mut != "amount=2^63" && c.mut != "amount=2^64-1":
+		case strings.HasPrefix(c.mut, "amount=2^") && c.mut != "amount=2^60" && c.mut != "amount=2^63" && c.mut != "amount=2^64-1" && c.mut != "amount=2^59+1":
 			var e uint
 			fmt.Sscanf(c.mut, "amount=2^%d", &e)
 			p.Amount = 1 << e
@@ -295,6 +303,12 @@ func c04Worker(job json.RawMessage) (any, error) {
 			p.Amount = 0
 		case c.mut == "amount=3":
 			p.Amount = 3
+		case c.mut == "amount=1000000":
+			p.Amount = 1000000
+		case c.mut == "amount=5":
+			p.Amount = 5
+		case c.mut == "amount=2^59+1":
+			p.Amount = 1<<59 + 1
 		case c.mut == "amount=2^60":
 			p.Amount = 1 << 60
 		case c.mut == "amount=2^63":
@@ -383,6 +397,20 @@ func c04Worker(job json.RawMessage) (any, error) {
 				outs = w.u.Outputs(w.ids[1], 1)
 			}
 			_, opErr = c04Guard(func() error { _, e := w.m.M.Swap(cashu.Proofs{p}, world.Msgs(outs)); return e })
+		case "swap-second":
+			first, err := getBase(c.ks+10, c.denom) // a second genuine proof of the same keyset and denomination
+			if err != nil {
+				return c04Res{Err: err.Error()}, nil
+			}
+			amts := world.Split(first.p.Amount)
+			if exp >= 0 {
+				amts = append(amts, world.Split(p.Amount)...) // honest request: outputs mirror the two inputs
+			}
+			outs := w.u.Outputs(w.ids[1], amts...)
+			_, opErr = c04Guard(func() error { _, e := w.m.M.Swap(cashu.Proofs{first.p, p}, world.Msgs(outs)); return e })
+			if opErr == nil {
+				delete(base, fmt.Sprintf("%d/%d", c.ks+10, c.denom))
+			}
 		case "melt":
 			comp, err := w.mintOne(2, "")
 			if err != nil {
